@@ -135,6 +135,10 @@ def bumps_for(group, month_ok):
                 bs.append(_str_bump('%d%s' % (k, u)))
         for s in ('1m1d', '-1m-1d'):
             bs.append(_str_bump(s))
+        for n in (1499, 1500, -1500, 2000):          # a step of many days is a step like any other (an int that large is only read as a YEAR where a date is expected)
+            bs.append(Bump('int:%d' % n, 'int', n, [('int', n)], eqkey=n))
+            bs.append(Bump('timedelta(days=%d)' % n, 'td', datetime.timedelta(days=n), [('td', n)], eqkey=n))
+            bs.append(_str_bump('%dd' % n, eqkey=n))
         for s in ALT_LONG:
             bs.append(_str_bump(s, kind='alt'))
     elif group == 'hours':
